@@ -31,7 +31,7 @@ ASSUMPTIONS = [
 ]
 LEVEL_TEXT = "Random exploration over all dumper hooks with an output-stream invariant and a styled/unstyled differential."
 LEVEL_NOTE = "flow construction through mitmproxy.test.tflow, DNSMessage.unpack for DNS realism"
-QUICK_N = 24_000
+QUICK_N = 18_000
 THOROUGH_N = 1_500_000
 
 KINDS = ["response", "response", "error", "http_connect_error", "websocket_message", "websocket_end", "tcp_message",
